@@ -68,6 +68,8 @@ CURATED = [
     E("body", True, [XS_DIV, E("img", False, [D4], [["src", "i.png"]])]),
     E("html", True, [E("head", True, []), E("body", True, [E("br", False, [])])]),
     E("div", True, [T("only text"), D4]),
+    E("div", True, [["ME", "user-node"], T("t"), E("span", False, [["ME", "inner"]])]),
+    E("div", True, [["ML"], E("p", True, [T("x"), ["ML"]])]),
 ]
 
 
@@ -179,7 +181,7 @@ def make_fn_seq(table_fn, builder, key):
         x = builder(spec)
         s0 = snap(x)
         fresh = builder(spec)
-        comparable = key != "doc"      # HTMLDocument defines no ==
+        comparable = key != "doc" and '"ML"' not in __import__("json").dumps(spec)   # no == for documents / lock nodes
         if comparable and not ((x == fresh) and (fresh == x)):
             viols.append(("eq:identical-unequal", "two identically built objects compare unequal", {}))
         for k, name in enumerate(seq):
@@ -283,13 +285,14 @@ def fn_independence(spec):
         objs = [type(graph_ids(x)[i]).__name__ for i in shared]
         viols.append(("tagify:shares-objects", f"tagify() result shares {sorted(set(objs))} with the original",
                       {"shared_types": objs}))
-    if not has_x and not (y == x):
+    has_ml = any(n[0] == "ML" for n in walk(spec))
+    if not has_x and not has_ml and not (y == x):
         viols.append(("tagify:not-equal", "tagify() of a tree needing no expansion is not == the original", {}))
     if not has_x and sx != sy:
         viols.append(("tagify:not-structurally-equal", "tagify() changed the structure of a tree "
                       "needing no expansion", {"original": sx, "copy": sy}))
     yy = y.tagify()
-    if not (yy == y) or snap(yy) != sy:
+    if (not has_ml and not (yy == y)) or snap(yy) != sy:
         viols.append(("tagify:not-fixed-point", "tagify() of a tagified tree differs from it", {}))
     if viols:
         return (nontrivial_spec(spec), None, viols)
@@ -320,9 +323,31 @@ def fn_independence(spec):
             target_root, other = (y2, x2) if side == "copy" else (x2, y2)
             s_other = snap(other)
             path, node = list(meta_paths(target_root))[mi]
+            if hasattr(node, "marks"):
+                node.marks.append("mutated")
+                node.label = node.label + "-mutated"
+                nmut += 1
+                if snap(other) != s_other:
+                    viols.append((f"aliasing:user-metadata:{side}",
+                                  f"changing a user metadata node of the {side} changed the other tree", {"path": list(path)}))
             if isinstance(node, HTMLDependency):
                 node.name = node.name + "-renamed"
                 node.all_files = not node.all_files
+                # ... and what it holds, through the public attributes
+                if node.head is not None:
+                    node.head.append("head-mutated")
+                    for c in node.head:
+                        if hasattr(c, "add_class"):
+                            c.add_class("head-tag-mutated")
+                if node.script:
+                    node.script[0]["src"] = "mutated.js"
+                    node.script.append({"src": "added.js"})
+                if node.stylesheet:
+                    node.stylesheet[0]["href"] = "mutated.css"
+                if node.meta:
+                    node.meta.append({"name": "added", "content": "x"})
+                if isinstance(node.source, dict):
+                    node.source["mutated"] = "yes"
                 nmut += 1
                 if snap(other) != s_other:
                     viols.append((f"aliasing:dep-rename:{side}",
@@ -376,6 +401,8 @@ def variants(spec):
 def fn_variants(spec):
     from htmltools import TagList
     viols = []
+    if any(n[0] == "ML" for n in walk(spec)):
+        return (False, "no-eq", [])      # lock-holding user nodes define no equality
     x = build(spec)
     same = build(spec)
     if not (x == same) or (x != same):
